@@ -16,6 +16,26 @@ pub enum Value {
     Bool(bool),
     Number(i64),
 }
+// the accessors of the real `serde_json::Value` that make sense for scalars (so that first-party
+// code that starts inspecting a value keeps compiling against the shim)
+impl Value {
+    pub fn is_null(&self) -> bool { matches!(self, Value::Null) }
+    pub fn is_boolean(&self) -> bool { matches!(self, Value::Bool(_)) }
+    pub fn is_number(&self) -> bool { matches!(self, Value::Number(_)) }
+    pub fn is_string(&self) -> bool { false }
+    pub fn is_object(&self) -> bool { false }
+    pub fn is_array(&self) -> bool { false }
+    pub fn as_bool(&self) -> Option<bool> { if let Value::Bool(b) = self { Some(*b) } else { None } }
+    pub fn as_i64(&self) -> Option<i64> { if let Value::Number(n) = self { Some(*n) } else { None } }
+    pub fn as_u64(&self) -> Option<u64> { if let Value::Number(n) = self { if *n >= 0 { Some(*n as u64) } else { None } } else { None } }
+    pub fn as_str(&self) -> Option<&str> { None }
+    pub fn as_null(&self) -> Option<()> { if self.is_null() { Some(()) } else { None } }
+    pub fn take(&mut self) -> Value { std::mem::replace(self, Value::Null) }
+}
+impl From<bool> for Value { fn from(b: bool) -> Self { Value::Bool(b) } }
+impl From<i64> for Value { fn from(n: i64) -> Self { Value::Number(n) } }
+impl From<()> for Value { fn from(_: ()) -> Self { Value::Null } }
+
 impl Default for Value {
     fn default() -> Self {
         Value::Null
